@@ -496,7 +496,11 @@ class DemandSource(object):
 					elif the_dict[prop] is not None:
 						# If elements of demand_list are dicts (keys = products, values = demands),
 	  					# replace string keys with integers.
-						value = [{int(k): v for k, v in d.items()} if is_dict(d) else d for d in the_dict[prop]]
+						# (demand_list may also be a singleton, for type 'D'.)
+						if is_iterable(the_dict[prop]):
+							value = [{int(k): v for k, v in d.items()} if is_dict(d) else d for d in the_dict[prop]]
+						else:
+							value = the_dict[prop]
 				else:
 					if prop in the_dict:
 						value = the_dict[prop]
